@@ -350,7 +350,7 @@ func runC07(c *Ctx) {
 	r := c.R
 	r.Assume("the proxy processes one client's frames sequentially, so the model state at send time is the state the request must run in, pipelined or not")
 	r.Assume("a USE failing because a host is down during a scripted restart is not judged (only histories without restarts demand success)")
-	r.Require("echoes_checked", "histories", "simultaneous_use_histories", "late_host_histories")
+	r.Require("echoes_checked", "histories", "simultaneous_use_histories", "late_host_histories", "concurrent_failed_use_histories")
 	n := c.Pick(120, 12000)
 	for i := 0; i < n; i++ {
 		if c.Replay != nil && c.Replay["kind"] == "c07" {
@@ -375,6 +375,11 @@ func runC07(c *Ctx) {
 		for i := 0; i < c.Pick(12, 400); i++ {
 			if c.Mine(i) {
 				c07LateHost(c, i)
+			}
+		}
+		for i := 0; i < c.Pick(12, 600); i++ {
+			if c.Mine(i + 1) {
+				c07ConcurrentFailedUse(c, i)
 			}
 		}
 	}
@@ -480,4 +485,94 @@ func c07LateHost(c *Ctx, idx int) {
 			r.Obs("late_host_conn_comp:"+x.Comp(), 1)
 		}
 	}
+}
+
+// c07ConcurrentFailedUse: several clients that share a session key (version, compression) send USE of the same keyspace at
+// about the same time; the keyspace does not exist and the backend is slow to say so, so all but the first arrive while the
+// first one's session is still being created. Every one of them must be told the error, and must go on running in the
+// keyspace it was in ("a failed USE returns the backend's error and leaves the previous keyspace in force").
+func c07ConcurrentFailedUse(c *Ctx, idx int) {
+	r := c.R
+	rng := c.Rng(78000 + idx)
+	n := 2 + rng.Intn(5)
+	comp := []string{"", "lz4", "snappy"}[idx%3]
+	ver := []primitive.ProtocolVersion{4, 4, 3, 5}[idx%4]
+	gap := time.Duration(rng.Intn(30)) * time.Millisecond
+	scenario := map[string]interface{}{"kind": "c07-concurrent-failed-use", "idx": idx}
+	c.Step("c07 concurrent failed USE idx=%d clients=%d v%d %q gap=%s", idx, n, ver, comp, gap)
+	bed, err := px.NewBed(px.BedConfig{Hosts: 1 + idx%2, NumConns: 1, Keyspaces: c07Keyspaces, KeepBodies: true, MaxVersion: primitive.ProtocolVersionDse2})
+	if err != nil {
+		r.Inconc("c07 concurrent failed USE: cannot start bed: " + err.Error())
+		return
+	}
+	defer bed.Close()
+	bad := fmt.Sprintf("nosuch_%d", idx)
+	bed.Cluster.SetSlowUseMissing(bad, 250*time.Millisecond)
+	var clients []*rawcql.Client
+	var prev []string
+	for i := 0; i < n; i++ {
+		cl, err := bed.ReadyClient(ver, comp)
+		if err != nil {
+			r.Inconc("c07 concurrent failed USE: handshake: " + err.Error())
+			return
+		}
+		defer cl.Close()
+		ks := []string{"ks1", "ks2", ""}[(i+idx)%3]
+		if ks != "" {
+			if f, err := cl.Call(1, &message.Query{Query: "USE " + ks, Options: &message.QueryOptions{Consistency: primitive.ConsistencyLevelOne}}, 10*time.Second); err != nil || f.OpCode != primitive.OpCodeResult {
+				r.Inconc("c07 concurrent failed USE: first USE failed")
+				return
+			}
+		}
+		clients = append(clients, cl)
+		prev = append(prev, ks)
+	}
+	type res struct {
+		f   *rawcql.Frame
+		err error
+	}
+	out := make([]res, n)
+	var wg sync.WaitGroup
+	for i, cl := range clients {
+		wg.Add(1)
+		go func(i int, cl *rawcql.Client) {
+			defer wg.Done()
+			time.Sleep(time.Duration(i) * gap)
+			f, err := cl.Call(2, &message.Query{Query: "USE " + bad, Options: &message.QueryOptions{Consistency: primitive.ConsistencyLevelOne}}, 30*time.Second)
+			out[i] = res{f, err}
+		}(i, cl)
+	}
+	wg.Wait()
+	for i, cl := range clients {
+		r.Eval(1)
+		if out[i].err != nil || out[i].f == nil {
+			r.Violate(mon.Violation{Signature: "C07/failed-use-reply/concurrent-failed-use/no-reply", Detail: fmt.Sprintf("client %d of %d (v%d %q): USE of a keyspace that does not exist got no reply while %d clients sent it at the same time", i, n, ver, comp, n), Scenario: scenario})
+			return
+		}
+		ri := DecodeReply(comp, out[i].f)
+		if !strings.HasPrefix(ri.Kind, "Error") {
+			r.Violate(mon.Violation{Signature: "C07/failed-use-reply/concurrent-failed-use/answered-" + strings.SplitN(ri.Kind, " ", 2)[0], Detail: fmt.Sprintf("client %d of %d (v%d %q, %s after the first): USE %s - a keyspace the backend refuses - was answered %s instead of an error, while another client's USE of the same keyspace was in progress", i, n, ver, comp, time.Duration(i)*gap, bad, ri.Kind), Scenario: scenario})
+			return
+		}
+		for k := 0; k < 3; k++ {
+			tok := NewTok()
+			f, err := cl.CallF(BuildRequest(ver, int16(10+k), KQuery, true, tok, primitive.ConsistencyLevelOne), 15*time.Second)
+			if err != nil || f == nil {
+				r.Violate(mon.Violation{Signature: "C07/no-reply/concurrent-failed-use", Detail: fmt.Sprintf("client %d: request after the failed USE got no reply", i), Scenario: scenario})
+				return
+			}
+			di := DecodeReply(comp, f)
+			if di.Kind != "Rows" || !di.HasEcho {
+				r.Violate(mon.Violation{Signature: "C07/data-request-failed/after-concurrent-failed-use", Detail: fmt.Sprintf("client %d of %d (v%d %q, keyspace %q before): after its USE %s was refused, a data request was answered %s %q", i, n, ver, comp, prev[i], bad, di.Kind, di.ErrMsg), Scenario: scenario})
+				return
+			}
+			r.Obs("echoes_checked", 1)
+			if di.Echo.Ks != prev[i] {
+				r.Violate(mon.Violation{Signature: "C07/keyspace-changed-by-failed-use/concurrent-failed-use", Detail: fmt.Sprintf("client %d: keyspace %q before the refused USE, but the next request ran in %q", i, prev[i], di.Echo.Ks), Scenario: scenario})
+				return
+			}
+		}
+	}
+	r.Obs("concurrent_failed_use_histories", 1)
+	r.NonTrivial(fmt.Sprintf("concurrent-failed-use/n%d/v%d/%s/gap%d", n, ver, comp, gap/time.Millisecond))
 }
